@@ -2,7 +2,11 @@
 VERIF_SEED) plus a seeded random part, strata in round-robin."""
 from harness import common, cvengine as cv
 
-STRATA = ['small', 'small', 'as', 'as_nested', 'fusion', 'fusion_var', 'circ', 'circ_var', 'multi', 'small', 'sec', 'sec']
+import os
+
+STRATA = ['small', 'small', 'as', 'as_nested', 'fusion', 'fusion_var', 'circ', 'circ_var', 'multi', 'small', 'sec', 'sec', 'units']
+if os.environ.get('VERIF_STRATA'):          # targeted sweeps (triage only): restrict the strata
+    STRATA = os.environ['VERIF_STRATA'].split(',')
 
 
 def specs(prop, seed, n_fixed, n_random, extra=None):
